@@ -265,6 +265,12 @@ def replay_one(pid, h):
                 except subprocess.TimeoutExpired:
                     o2, failed, hang = "native replay did not terminate within 900 s", True, True
                 msgs = re.findall(r"panicked at ([^\n]*\n[^\n]*)", o2)
+                # stub-based harnesses end their native twin (`if cfg!(test) { oracle; return; }`) before the values the
+                # stubs would have drawn are consumed; the playback driver then panics about left-over values AFTER the
+                # harness body has returned without any assertion failure: that is a run in which the native oracle held
+                leftover = [m for m in msgs if "concrete values left over" in m]
+                if failed and not hang and msgs and len(leftover) == len(msgs):
+                    failed = False
                 info["native"].append({"profile": prof, "reproduced": failed, "hang": hang, "panic": msgs[:3],
                                        "cmd": " ".join(c2)})
                 reproduced = reproduced or failed
@@ -338,8 +344,12 @@ def main():
         menv = dict(ENV)
         if only and ":" in only:
             menv["MIRSYM_ONLY"] = only.split(":", 1)[1]
-        mp = subprocess.run(["python3-vt", os.path.join(ROOT, "mirsym", "driver.py"), pid, tier, str(seed)],
-                            capture_output=True, text=True, env=menv)
+        try:
+            mp = subprocess.run(["python3-vt", os.path.join(ROOT, "mirsym", "driver.py"), pid, tier, str(seed)],
+                                capture_output=True, text=True, env=menv, timeout=5400 if tier == "quick" else 6 * 3600)
+        except subprocess.TimeoutExpired as te:
+            # never a pass: the whole engine run is reported as broken
+            mp = subprocess.CompletedProcess(te.cmd, 124, stdout="", stderr="mirsym wall cap hit")
         mline = [l for l in mp.stdout.splitlines() if l.startswith("MIRSYM-JSON ")]
         if not mline:
             log("BROKEN: mirsym produced no result: " + (mp.stderr or mp.stdout)[-1500:])
